@@ -1,6 +1,7 @@
 #![allow(dead_code)]
 mod automata;
 mod charsets;
+mod components;
 mod dump;
 mod loopranges;
 mod manager;
@@ -69,6 +70,7 @@ fn main() {
         ("drive", "hopcroft") => automata::drive_hopcroft(&a),
         ("replay", "manager") => manager::replay(&a),
         ("drive", "manager") => manager::drive(&a),
+        ("replay", "components") => components::replay(&a),
         ("drive", "c01") => regex::drive_c01(&a),
         ("drive", "c02") => regex::drive_c02(&a),
         ("drive", "c03") => regex::drive_c03(&a),
